@@ -163,7 +163,7 @@ def main():
                                        "independent oracles judge every observed execution"}],
         "checks": checks,
         "not_applicable": na,
-        "notes": "Runtime monitoring only. Exit 0 held / 1 VIOLATION / 2 INCONCLUSIVE. Known findings: known_findings.json. Every workload family re-uses its objects across steps (state carried across calls is part of what is observed). Self-validation: selftest/ (187 mutants), seeded/ (60 independent seeded changes), tools/recheck_seeds.sh.",
+        "notes": "Runtime monitoring only. Exit 0 held / 1 VIOLATION / 2 INCONCLUSIVE. Known findings: known_findings.json. Every workload family re-uses its objects across steps (state carried across calls is part of what is observed). Self-validation: selftest/ (188 mutants), seeded/ (120 independent seeded changes in five rounds), benign/ (80 behaviour-preserving patches, all silent), tools/recheck_seeds.sh, tools/recheck_benign.sh.",
     }
     with open(os.path.join(HERE, "MANIFEST.json"), "w") as f:
         json.dump(man, f, indent=1)
